@@ -56,6 +56,13 @@ def rule_library_key(F, rep):
             raise AnalysisBroken('fetchModel: resolvePath(%s, %s) is not the resolution of the URL as written against the importing file' % (a, render(e['c'][1])[:30]))
         raise Stop()
 
+    def lookup(e, env):
+        """mLibrary.find(x) -> ('it', value of x)"""
+        e = strip(e)
+        if e is not None and e.get('k') == 'Call' and e.get('fn') == 'find' and e.get('c') and 'mLibrary' in render(e['c'][0]):
+            return ('it', val(e['c'][1], env))
+        return None
+
     def present(e, env, w, r):
         v = val(e, env)
         if v == 'W':
@@ -80,6 +87,10 @@ def rule_library_key(F, rep):
             op = e.get('op') or e.get('opc')
             l, r_ = strip(e['c'][0]), strip(e['c'][1])
             for x, y in ((l, r_), (r_, l)):
+                if x.get('k') == 'Ref' and x.get('dk') == 'local' and isinstance(env.get(x.get('d')), tuple) and y.get('k') == 'Call' and y.get('fn') == 'end':
+                    v_ = env[x['d']][1]
+                    p_ = w if v_ == 'W' else r
+                    return (not p_) if op == '==' else p_
                 if x.get('k') == 'Call' and x.get('fn') == 'count' and 'mLibrary' in render(x['c'][0]) and y.get('k') == 'Int' and y.get('v') == 0:
                     p_ = present(x['c'][1], env, w, r)
                     return (not p_) if op == '==' else p_
@@ -102,15 +113,19 @@ def rule_library_key(F, rep):
             for v in st.get('c', []):
                 if v.get('k') == 'Var' and v.get('c'):
                     t = (v.get('t') or '').replace('const ', '')
-                    if 'basic_string<char>' in t and 'map' not in t:
+                    if t in ('std::basic_string<char>', 'std::string', 'std::basic_string<char> &'):
                         env[v['d']] = val(v['c'][0], env)
                     elif t == 'bool':
                         env[v['d']] = cond(v['c'][0], env, w, r)
+                    elif lookup(v['c'][0], env) is not None:
+                        env[v['d']] = lookup(v['c'][0], env)
                     elif any(x.get('k') == 'Ref' and x.get('dk') == 'local' and env.get(x.get('d')) in ('W', 'R') for x in walk(v['c'][0])):
                         raise Stop()        # the chosen key is used (auto entry = mLibrary.find(url);): the selection is over
         elif (k == 'Call' and st.get('opc') == '=') or (k == 'Bin' and st.get('op') == '='):
             tgt = st['c'][0]
-            if isinstance(env.get(tgt.get('d')), bool) or tgt.get('t') == 'bool':
+            if lookup(st['c'][1], env) is not None:
+                env[tgt['d']] = lookup(st['c'][1], env)
+            elif isinstance(env.get(tgt.get('d')), bool) or tgt.get('t') == 'bool':
                 env[tgt['d']] = cond(st['c'][1], env, w, r)
             else:
                 env[tgt['d']] = val(st['c'][1], env)
@@ -144,6 +159,8 @@ def rule_library_key(F, rep):
                 raise AnalysisBroken('fetchModel: no statement uses the chosen key')
             stop_at = at
             keyv = next((x for x in walk(role(at, 'cond') if at.get('k') == 'If' else at) if x.get('k') == 'Ref' and x.get('dk') == 'local' and env.get(x.get('d')) in ('W', 'R')), None)
+            if keyv is None:
+                keyv = next((x for x in walk(at) if x.get('k') == 'Ref' and x.get('dk') == 'local' and env.get(x.get('d')) in ('W', 'R')), None)
             if keyv is None:
                 raise AnalysisBroken('fetchModel: the statement after the key selection (line %s) does not use a key that is the URL as written or its resolution' % at.get('l'))
             results[(w, r)] = env[keyv['d']]
@@ -250,6 +267,24 @@ def run(F, rep):
                             elif v.get('k') == 'Call' and v.get('opc') == '=' and c and c[0].get('k') == 'Ref' and c[0].get('d') == karg['d']:
                                 defs.append(c[1])
                         ok = all(slice_has(f, d, lambda x: x.get('k') == 'Call' and x.get('fn') in ('normaliseDirectorySeparator', 'resolvePath', 'normalisePath')) for d in defs)
+                    if not ok and karg.get('k') == 'Ref' and karg.get('dk') == 'parm' and f.enclosing_lambda(karg) is None:
+                        # a helper that takes the key: every caller hands it a normalised key
+                        _norm = lambda x: x.get('k') == 'Call' and x.get('fn') in ('normaliseDirectorySeparator', 'resolvePath', 'normalisePath')
+                        pi_ = next((i_ for i_, p_ in enumerate(f.params) if p_.get('d') == karg.get('d')), None)
+                        sites = [(g_, c_) for gk in sorted(F.callers.get(f.key, ())) for g_ in [F.funcs[gk]] for c_ in g_.walk() if c_.get('k') == 'Call' and f.key in F.callee_keys(c_)]
+                        def _site_ok(g_, c_):
+                            a_ = nth_arg(c_, pi_)
+                            if a_ is None or not slice_has(g_, a_, _norm):
+                                return False
+                            a0 = a_
+                            while a0.get('k') in ('Cast', 'Temp', 'Bind', 'Paren', 'Construct') and len(a0.get('c', [])) == 1:
+                                a0 = a0['c'][0]
+                            if a0.get('k') == 'Ref' and a0.get('dk') == 'local':
+                                ds_ = [v_['c'][0] for v_ in g_.walk() if v_.get('k') == 'Var' and v_.get('d') == a0['d'] and v_.get('c')]
+                                ds_ += [v_['c'][1] for v_ in g_.walk() if v_.get('k') == 'Call' and v_.get('opc') == '=' and len(v_.get('c', [])) == 2 and v_['c'][0].get('k') == 'Ref' and v_['c'][0].get('d') == a0['d']]
+                                return all(slice_has(g_, d_, _norm) for d_ in ds_)
+                            return True
+                        ok = pi_ is not None and bool(sites) and all(_site_ok(g_, c_) for g_, c_ in sites)
                     rep.check(ok, 'C07.K1', '%s|mLibrary.%s(%s)' % (f.short, p.get('fn') or '[]', render(karg)[:30]), f.where(p),
                               'library key `%s` is not normalised: the same file can be stored under two keys (back/forward slashes) and a repaired file is looked up under the other one' % render(karg)[:40], 'normalised key')
     if n_k < 4:
